@@ -249,6 +249,9 @@ def run(ctx):
             null_terminated(ctx, fi, paths)
         if cls == "NullStripped":
             null_stripped(ctx, fi, paths)
+    # the terminator CString looks for / the pad PaddedString strips is one code unit of the encoding: the unit table (shared with C03.R2)
+    from . import C03 as _C03
+    _C03.unit_table_check(ctx, "C08.R2")
     ctx.floor("C08.R1", 30)
     ctx.floor("C08.R2", 12)
     ctx.floor("C08.R3", 12)   # raised below once the shared Pointer obligations are in
